@@ -411,6 +411,79 @@ def check_copies(prog, rep, tier):
     rep.extra["copy_methods"] = n_methods
 
 
+def check_presence_guards(prog, rep):
+    """R5-presence: "optional data absent" round trips rely on each optional table being read exactly when ITS OWN entry is present: in
+    `None if d["k"] is None else read(d["k"], ...)` (or the if-statement form) the guarded branch reads the entry the test looked at."""
+    n = 0
+    for m in sorted(prog.modules.values(), key=lambda m_: m_.name):
+        for c in m.classes.values():
+            for f in c.methods.values():
+                if not (f.name.startswith("from_") or f.name.startswith("to_")):
+                    continue
+                for node in walk_no_nested(f.node):
+                    if not isinstance(node, (ast.IfExp, ast.If)):
+                        continue
+                    t = node.test
+                    if not (isinstance(t, ast.Compare) and len(t.ops) == 1 and isinstance(t.ops[0], (ast.Is, ast.IsNot)) and isinstance(t.comparators[0], ast.Constant)
+                            and t.comparators[0].value is None and isinstance(t.left, ast.Subscript) and isinstance(t.left.slice, ast.Constant)):
+                        continue
+                    cont, key = dump(t.left.value), t.left.slice.value
+                    present = node.orelse if isinstance(t.ops[0], ast.Is) else node.body
+                    present = present if isinstance(present, list) else [present]
+                    keys = {x.slice.value for b in present for x in ast.walk(b) if isinstance(x, ast.Subscript) and isinstance(x.slice, ast.Constant) and dump(x.value) == cont
+                            and isinstance(x.ctx, ast.Load)}
+                    if not keys:
+                        continue
+                    n += 1
+                    rep.saw(f)
+                    construct = "%s[%s]" % (f.qualname, key)
+                    if key not in keys:
+                        rep.violate("R5-presence", construct, "the entry %s[%r] is read when %s[%r] is present: with %r absent and %r given the data are silently dropped (or a missing file is "
+                                    "opened)" % (cont, sorted(keys)[0], cont, key, key, sorted(keys)[0]), where(f, node), "%s[%r] is None" % (cont, sorted(keys)[0]), dump(t))
+                    else:
+                        rep.ok("R5-presence", construct, "optional entry %r read exactly when it is present" % key)
+    return n
+
+
+def check_written_dict(prog, rep):
+    """R6-whole: h5py_File_write_dict deletes a dataset left by an earlier object only when it is handed the key with value None (R2-overwrite); every writer
+    therefore passes its complete field table - the dictionary literal itself, not a filtered or rebuilt copy of it."""
+    n = 0
+    for m in sorted(prog.modules.values(), key=lambda m_: m_.name):
+        for c in m.classes.values():
+            for f in c.methods.values():
+                calls = [x for x in walk_no_nested(f.node) if isinstance(x, ast.Call) and isinstance(x.func, ast.Name) and x.func.id == "h5py_File_write_dict"]
+                for call in calls:
+                    d = call.args[2] if len(call.args) > 2 else kwargs_of(call)[0].get("in_dict")
+                    n += 1
+                    rep.saw(f)
+                    construct = f.qualname
+                    if isinstance(d, ast.Dict):
+                        rep.ok("R6-whole", construct, "field table written as a literal")
+                        continue
+                    if not isinstance(d, ast.Name):
+                        rep.unrec("R6-whole", construct, "dictionary handed to the writer is %s" % dump(d)[:50] if d is not None else "absent")
+                        continue
+                    binds = [x for x in walk_no_nested(f.node) if isinstance(x, (ast.Assign, ast.AugAssign, ast.AnnAssign)) and any(
+                        isinstance(t, ast.Name) and t.id == d.id for t in (x.targets if isinstance(x, ast.Assign) else [x.target]))]
+                    edits = [x for x in walk_no_nested(f.node) if (isinstance(x, ast.Delete) and any(isinstance(t, ast.Subscript) and dump(t.value) == d.id for t in x.targets))
+                             or (isinstance(x, ast.Call) and isinstance(x.func, ast.Attribute) and dump(x.func.value) == d.id and x.func.attr in ("pop", "popitem", "clear"))]
+                    lit = [x for x in binds if isinstance(x, ast.Assign) and isinstance(x.value, ast.Dict)]
+                    other = [x for x in binds if x not in lit]
+                    filt = [x for x in other if isinstance(getattr(x, "value", None), (ast.DictComp, ast.Call)) and any(
+                        isinstance(g, ast.comprehension) and g.ifs for g in ast.walk(x.value)) and any(isinstance(y, ast.Name) and y.id == d.id for y in ast.walk(x.value))]
+                    if filt or edits:
+                        bad = (filt or edits)[0]
+                        rep.violate("R6-whole", construct, "the field table is filtered before it reaches the writer (%s): an entry that is None is what makes the writer delete the dataset an "
+                                    "earlier, richer object left under the same name - after overwriting, the object read back is not the last one written" % dump(bad)[:70],
+                                    where(f, bad), "h5py_File_write_dict(h5file, groupname, <complete table>, overwrite)", dump(bad)[:70])
+                    elif len(lit) == 1 and not other:
+                        rep.ok("R6-whole", construct, "complete field table handed to the writer")
+                    else:
+                        rep.unrec("R6-whole", construct, "field table %s is bound %d times / not by a literal" % (d.id, len(binds)))
+    return n
+
+
 def run(prog, rep, tier):
     rep.explanation = ("Writer/reader table agreement per concrete class through the MRO, a path rule for the HDF5 dictionary writer "
                        "(every key is replaced, deleted or recursed on every path), and keyword/attribute agreement plus deep-copy wrapping "
@@ -420,5 +493,9 @@ def run(prog, rep, tier):
     rep.floor("R3-copies", 60)
     check_overwrite(prog, rep)
     check_copies(prog, rep, tier)
+    rep.floor("R5-presence", 12)
+    rep.floor("R6-whole", 12)
+    check_written_dict(prog, rep)
+    check_presence_guards(prog, rep)
     from rules import c16_tables
     c16_tables.run(prog, rep, tier)
